@@ -36,6 +36,7 @@ PROPS = {
             "handlers": (None, ALL),
             "coldpath": (None, ALL),
             "equality": [(["Executor::handle_equal"], ALL), (None, ("safety",))],
+            "transfer": (None, ("safety",)),
             "builtins_binary": (None, ("safety",)),
             "builtins_integer": (None, ("safety",)),
             "builtins_vector": (None, ("safety",)),
@@ -49,6 +50,7 @@ PROPS = {
             "handlers": (None, ALL),
             "coldpath": (None, ALL),
             "equality": (["Executor::handle_equal"], ALL),
+            "transfer": (None, ALL),
         },
         "kani": [],
     },
